@@ -68,9 +68,6 @@ def handle (op : String) (args : List String) : Option String :=
   | "toks", [s] => do
     let b ← bytesOfHex s
     pure (toksStr (shToks b))
-  | "jobscript", args => do
-    let j ← parseJob args
-    pure (hexOfBytes (jobScript Gen.shellEscapes j))
   -- shipped template by name: the template text the segments stand for, the
   -- segment-level rendering, the byte-level rendering of that text, the tokens
   -- the theorems promise, and whether every line has a covered shape
